@@ -182,6 +182,9 @@ pub struct Params {
     pub shuffle: bool,
     /// 0 = no application sleeps, 1 = short, 2 = up to 200 ms
     pub timing: u8,
+    /// Interface back-pressure: 0 = `send_to` never blocks; 1 = 15 % of the datagrams block
+    /// for 50..400 ms; 2 = 30 % block for 200..1500 ms (the node's TX buffer stays occupied).
+    pub stall: u8,
 }
 
 impl Params {
@@ -323,6 +326,7 @@ pub fn gen_params(rng: &mut Rng, _idx: u64) -> Params {
         sai_b: sai(rng),
         shuffle: !rng.chance(1, 8),
         timing,
+        stall: if rng.chance(1, 4) { 1 + rng.below(2) as u8 } else { 0 },
     }
 }
 
@@ -332,7 +336,7 @@ fn params_json(p: &Params) -> Value {
         "seed": p.seed.to_string(),
         "exchanges": p.exch.iter().map(|e| format!("{:?}x{}{}", e.kind, e.rounds, format!("{}{}", if e.final_ack {"+ack"} else {""}, if e.stream {"+stream"} else {""}))).collect::<Vec<_>>(),
         "policy": format!("{:?}", p.policy),
-        "sai_a": p.sai_a, "sai_b": p.sai_b, "shuffle": p.shuffle, "timing": p.timing,
+        "sai_a": p.sai_a, "sai_b": p.sai_b, "shuffle": p.shuffle, "timing": p.timing, "stall": p.stall,
         "gen": "see gen_params; replay by (shard_seed, index)",
     })
 }
@@ -807,6 +811,19 @@ pub fn run_case(p: &Params) -> Outcome {
     }
 
     let hub = NetHub::new(rng.u64(), 2);
+    if p.stall > 0 {
+        let level = p.stall;
+        hub.set_stall(Some(Box::new(move |_src, _bytes, rng| {
+            if level == 1 {
+                if rng.chance(15, 100) { rng.range(50, 400) } else { 0 }
+            } else if rng.chance(30, 100) {
+                rng.range(200, 1500)
+            } else {
+                0
+            }
+        })));
+    }
+    STALLED.with(|c| c.set(p.stall > 0));
     let addr_a = hub.addr(0);
     let addr_b = hub.addr(1);
 
@@ -1889,7 +1906,20 @@ pub fn run(ctx: &Ctx) -> Report {
 /// than one window behind is indistinguishable from a restarted peer), so a late duplicate
 /// on an unsecured session being taken for a restart - and what follows from it - is the
 /// mandated behaviour, not a defect. It is counted as a note.
+thread_local! {
+    /// The case being run / judged has interface back-pressure switched on.
+    static STALLED: core::cell::Cell<bool> = const { core::cell::Cell::new(false) };
+}
+
 fn viol(rep: &mut Report, rule: &str, signature: &str, detail: String, replay: serde_json::Value) {
+    // With a network interface that blocks `send_to` for up to 1.5 s per datagram the timing
+    // rules (return within the budget, success when acknowledged "in time", back-off lower
+    // bound as seen on the wire, prompt re-acknowledgement) have no fixed bounds: only the
+    // time-free rules O1 (at most once, in order) and O2 (Ok is truthful) are judged there.
+    if STALLED.with(|c| c.get()) && !(rule.starts_with("O1") || rule.starts_with("O2")) {
+        rep.note(&format!("not-judged(interface back-pressure):{}", rule));
+        return;
+    }
     if signature.contains("after-unsecured-window-rebased-at-receiver") {
         rep.note(&format!("not-judged(unsecured counter restart, see C04):{}", signature));
         return;
